@@ -115,3 +115,55 @@ Definition first_error_is_plain_reject_stmt : Prop :=
   forall g A input ifuel PN ofuel oracle e es,
     errs_of (run_recover g A input ifuel PN ofuel oracle [] 0) = e :: es ->
     exists fuel, run g A fuel input = RReject (e_pos e) (e_state e).
+
+(* ---- C05: what a valid repair means for the repaired token string ----------------- *)
+(* number of lexemes a sequence makes the parser shift *)
+Fixpoint shifts_of (seq : list repair) : nat :=
+  match seq with
+  | [] => 0
+  | Del :: s => shifts_of s
+  | _ :: s => S (shifts_of s)
+  end.
+
+(* a valid repair at lexeme p: on the input with the sequence applied (deleted
+   lexemes dropped, inserted tokens added, shifted ones kept), plain LR parsing
+   from the configuration at the error gets, without error, through every
+   inserted/shifted lexeme and PN more, or to Accept *)
+Definition valid_repair_plain_parse_stmt : Prop :=
+  forall g A input ifuel PN stk p seq,
+    no_shift_eof g A -> (p <= length input)%nat ->
+    valid_repair g A input ifuel PN stk p seq = true ->
+    ahead_ok (parse_ahead g A (repaired input p seq) ifuel (shifts_of seq + PN) stk p) = true.
+
+(* ---- C05: parsing continues as if the sequence had been applied --------------------- *)
+(* the shape of a value: productions and leaf tokens (lexeme indices and faulty flags of
+   the repaired input differ from those of the original by construction) *)
+Fixpoint vshape (t : vtree) : tree :=
+  match t with
+  | VLeaf a _ _ => Leaf a 0
+  | VNode p kids => Node p (map vshape kids)
+  end.
+
+(* errors correspond: positions up to the offset between the two inputs, same state,
+   same repaired flag, same validity of the applied sequence *)
+Definition erel (d1 d2 : nat) (e1 e2 : err) : Prop :=
+  (e_pos e1 + d2 = e_pos e2 + d1)%nat /\ e_state e1 = e_state e2 /\
+  e_repaired e1 = e_repaired e2 /\ e_valid e1 = e_valid e2.
+Definition similar (d1 d2 : nat) (r1 r2 : dres) : Prop :=
+  match r1, r2 with
+  | DDone v1 es1, DDone v2 es2 => option_map vshape v1 = option_map vshape v2 /\ Forall2 (erel d1 d2) es1 es2
+  | DStuck w1 es1, DStuck w2 es2 => w1 = w2 /\ Forall2 (erel d1 d2) es1 es2
+  | _, _ => False
+  end.
+
+(* After a sequence whose every step did what it says was applied at an error at lexeme
+   p, the driver goes on exactly as the driver run on the repaired token string from the
+   same configuration: same value (shape), same later errors (same states, positions
+   shifted by the length difference, same repairs applied), same outcome. *)
+Definition continue_as_if_applied_stmt : Prop :=
+  forall g A input ifuel PN seq stk p stk' p' ofuel oracle,
+    no_shift_eof g A -> (p <= length input)%nat ->
+    apply_seq g A input ifuel seq 0 stk p None = Done (stk', p', None) ->
+    similar p' (p + shifts_of seq)
+      (run_recover g A input ifuel PN ofuel oracle stk' p')
+      (run_recover g A (repaired input p seq) ifuel PN (shifts_of seq + ofuel) oracle stk p).
